@@ -156,7 +156,7 @@ impl Prop for C18 {
     }
 
     fn n_indices(&self, tier: Tier) -> u64 {
-        singles().len() as u64 + 6000 * tier.scale()
+        singles().len() as u64 + 30000 * tier.scale()
     }
 
     fn run_index(&self, idx: u64, seed: u64, _tier: Tier, rt: &mut Rt) -> Vec<Violation> {
